@@ -387,7 +387,7 @@ def plan(ctx):
   d = 3 if th else 2
   ctx.rule = ('AgnosticFedAvg: domains {2,3} x window {1,2,3} x domain lr {0,1/8,1} x all cohort histories to depth %d over '
               'cohorts that starve domains; APFL: client lr {1/8,4} x coefficient {0,0.5,1} x histories; HypCluster: clusters '
-              '{2,3} x server optimizer {sgd,momentum} (+ an L2 regularizer that takes part in the assignment) x histories with reference per-cluster FedAvg; MimeLite: clip {1/8,1,1e6} '
+              '{2,3} x server optimizer {sgd,momentum} (+ an L2 regularizer that takes part in the assignment) x histories with reference per-cluster FedAvg; MimeLite: clip {0,1/8,1,1e6} '
               'x base {sgd,momentum} x histories; ignore_grads_haiku: all 16 subsets x {sgd,momentum,adam,global-norm-clip+momentum} x 3 steps'
               % (d + 1))
   ctx.assumptions += ['every history is executed; invariants are evaluated in every reached state',
@@ -401,8 +401,9 @@ def plan(ctx):
                     if th or c != 0.0], chunk=1)
   ctx.pmap('hyp', [{'clusters': k, 'sopt': so, 'depth': d, 'seed': s} for k in (2, 3) for so in ('sgd', 'mom')] +
            [{'clusters': 3, 'sopt': 'sgd', 'depth': d, 'seed': s, 'reg': lam} for lam in ((0.5, 2.0) if th else (0.5,))], chunk=1)
-  ctx.pmap('mimelite', [{'clip': c, 'base': b, 'depth': d, 'seed': s} for c in (0.125, 1.0, 1e6) for b in ('sgd', 'mom')],
-           chunk=1)
+  # clip 0.0 / 0: a legal bound (every aggregated update is the zero vector), falsy in Python
+  ctx.pmap('mimelite', [{'clip': c, 'base': b, 'depth': d, 'seed': s} for c in (0.125, 1.0, 1e6) for b in ('sgd', 'mom')] +
+           [{'clip': c, 'base': 'sgd', 'depth': min(d, 2), 'seed': s} for c in (0.0, 0)], chunk=1)
   ig = [{'base': b, 'ignored': [list(x) for x in sub]} for b in ('sgd', 'mom', 'adam', 'clipmom') for r in range(0, 5)
         for sub in itertools.combinations(NAMES, r)]
   ctx.pmap('ignore_grads', ig, chunk=12)
